@@ -30,6 +30,30 @@ def _default(o):
     return repr(o)
 
 
+def pack(o):
+    """JSON transport that keeps strings EXACT: a high surrogate directly followed by a low one would be merged into one astral
+    character by json.loads; such strings travel as code-point lists."""
+    if isinstance(o, str):
+        if not o.isascii() and any(0xD800 <= ord(c) <= 0xDFFF for c in o):
+            return {"__cps__": [ord(c) for c in o]}
+        return o
+    if isinstance(o, (list, tuple)):
+        return [pack(x) for x in o]
+    if isinstance(o, dict):
+        return {k: pack(v) for k, v in o.items()}
+    return o
+
+
+def unpack(o):
+    if isinstance(o, list):
+        return [unpack(x) for x in o]
+    if isinstance(o, dict):
+        if set(o) == {"__cps__"}:
+            return "".join(chr(c) for c in o["__cps__"])
+        return {k: unpack(v) for k, v in o.items()}
+    return o
+
+
 def short_hash(s: str) -> str:
     return hashlib.blake2b(s.encode("utf-8", "surrogatepass"), digest_size=8).hexdigest()
 
